@@ -166,31 +166,34 @@ impl Scenario {
             return s.clone();
         }
         let mut s = format!("head{f}\n");
-        let mut inc = String::new();
         for d in &self.deps[f] {
-            inc.push_str(&self.expected(*d, memo));
+            let e = self.expected(*d, memo);
+            s.push_str(&e); // the include directive
+            s.push_str(&e); // the command placed right after it: cat of the same output
         }
-        s.push_str(&inc); // include directives
-        s.push_str(&inc); // the command's cat
         s.push_str(&format!("tail{f}\n"));
         memo.insert(f, s.clone());
         s
     }
+    /// the source of file f: for every dependency an include line immediately followed by a command that reads the
+    /// same output (so that a dependency line right after a non-dependency directive is part of every project),
+    /// then the marker command
     pub fn source(&self, f: usize, log: &Path) -> String {
         let mut s = format!("head{f}\n");
         if self.fail[f] == "pre" {
             s.push_str(&format!("TXTPP#include no-such-file-{f}\n"));
         }
-        let mut cat = String::new();
-        for d in &self.deps[f] {
-            s.push_str(&format!("TXTPP#include {}\n", self.rel(f, *d)));
-            cat.push_str(&format!(" {}", self.rel(f, *d)));
+        for (i, d) in self.deps[f].iter().enumerate() {
+            if i % 2 == 0 {
+                s.push_str(&format!("TXTPP#include {}\n", self.rel(f, *d)));
+                s.push_str(&format!("// TXTPP#run cat {}\n", self.rel(f, *d)));
+            } else {
+                // `after` + two reads: same text, other directive kinds
+                s.push_str(&format!("TXTPP#after {}\n", self.rel(f, *d)));
+                s.push_str(&format!("// TXTPP#run cat {0} {0}\n", self.rel(f, *d)));
+            }
         }
-        if cat.is_empty() {
-            s.push_str(&format!("-TXTPP#run echo m{f} >> '{}'\n", log.display()));
-        } else {
-            s.push_str(&format!("-TXTPP#run echo m{f} >> '{}'; cat{cat}\n", log.display()));
-        }
+        s.push_str(&format!("-TXTPP#run echo m{f} >> '{}'\n", log.display()));
         if self.fail[f] == "post" {
             s.push_str(&format!("TXTPP#include no-such-file-{f}\n"));
         }
